@@ -59,3 +59,45 @@ Proof.
   - eexists. split; [reflexivity|]. cbn [s_off s_size s_ext]. split; [reflexivity|].
     destruct (s_ext s) as [x|]; [subst x; reflexivity | reflexivity].
 Qed.
+
+(** * as_bytes: the byte view covers exactly the object representations of the span's elements *)
+Lemma flat_map_window : forall (A B : Type) (f : A -> list B) k (l : list A),
+  (forall x, length (f x) = k) -> forall a n,
+  firstn (n * k) (skipn (a * k) (flat_map f l)) = flat_map f (firstn n (skipn a l)).
+Proof.
+  intros A B f k l Hk. induction l as [|x r IH]; intros a n.
+  - cbn. rewrite skipn_nil, firstn_nil. destruct a, n; reflexivity.
+  - destruct a as [|a].
+    + cbn [Nat.mul skipn]. destruct n as [|n]; [reflexivity|].
+      cbn [flat_map firstn Nat.mul]. rewrite firstn_app. rewrite Hk.
+      rewrite firstn_all2 by (rewrite Hk; lia). replace (k + n * k - k)%nat with (n * k)%nat by lia.
+      f_equal. specialize (IH O n). cbn [Nat.mul skipn] in IH. exact IH.
+    + cbn [flat_map skipn]. replace (S a * k)%nat with (k + a * k)%nat by lia.
+      rewrite skipn_app. rewrite Hk. rewrite skipn_all2 by (rewrite Hk; lia). cbn [app].
+      replace (k + a * k - k)%nat with (a * k)%nat by lia. apply IH.
+Qed.
+
+Theorem sp_as_bytes_spec : forall (A B : Type) (repr : A -> list B) (esz : Z) (buf : list A) s,
+  0 < esz -> (forall x, Z.of_nat (length (repr x)) = esz) ->
+  sp_valid buf s -> sp_consistent s -> Z.of_nat (length buf) * esz < 18446744073709551616 ->
+  let r := sp_as_bytes esz s in
+  s_off r = s_off s * esz /\ s_size r = s_size s * esz
+  /\ s_ext r = match s_ext s with Some n => Some (esz * n) | None => None end
+  /\ sp_elems (flat_map repr buf) r = flat_map repr (sp_elems buf s)
+  /\ sp_consistent r.
+Proof.
+  intros A B repr esz buf s Hesz Hrepr [H0 [H1 H2]] Hcons Hfit r. subst r.
+  unfold sp_consistent in Hcons.
+  assert (Hsz : szw (s_size s * esz) = s_size s * esz) by (apply szw_id; nia).
+  unfold sp_as_bytes, sp_size_bytes, mk_span, sp_elems, window, sp_consistent. cbn [s_off s_size s_ext].
+  destruct (s_ext s) as [n|] eqn:He.
+  - subst n. assert (Hsz' : szw (esz * s_size s) = s_size s * esz) by (rewrite Z.mul_comm; exact Hsz).
+    rewrite Hsz'. split; [reflexivity|]. split; [reflexivity|]. split; [f_equal; lia|]. split; [|reflexivity].
+    replace (Z.to_nat (s_size s * esz)) with (Z.to_nat (s_size s) * Z.to_nat esz)%nat by nia.
+    replace (Z.to_nat (s_off s * esz)) with (Z.to_nat (s_off s) * Z.to_nat esz)%nat by nia.
+    apply flat_map_window. intros x. specialize (Hrepr x). lia.
+  - rewrite Hsz. split; [reflexivity|]. split; [reflexivity|]. split; [reflexivity|]. split; [|exact I].
+    replace (Z.to_nat (s_size s * esz)) with (Z.to_nat (s_size s) * Z.to_nat esz)%nat by nia.
+    replace (Z.to_nat (s_off s * esz)) with (Z.to_nat (s_off s) * Z.to_nat esz)%nat by nia.
+    apply flat_map_window. intros x. specialize (Hrepr x). lia.
+Qed.
